@@ -443,6 +443,48 @@ class OdeModel:
                     s.problems.append(("viol", "removed-factor", f"removed factor {show(minus)} is not y[IDX_<alias of the column species>]"))
 
 
+def poly(v):
+    """Integer polynomial normal form of an index expression: {sorted tuple of atoms: coefficient}.  + - * and integer constants are
+    interpreted, everything else is an atom.  `row*n + 0`, `n*row`, `(row+1)*n - n` all compare equal to `row*n`."""
+    v = simp(v)
+
+    def add(a, b, sg=1):
+        out = dict(a)
+        for k, c in b.items():
+            out[k] = out.get(k, 0) + sg * c
+        return {k: c for k, c in out.items() if c}
+
+    def mul(a, b):
+        out = {}
+        for k1, c1 in a.items():
+            for k2, c2 in b.items():
+                k = tuple(sorted(k1 + k2, key=repr))
+                out[k] = out.get(k, 0) + c1 * c2
+        return {k: c for k, c in out.items() if c}
+    if v[0] == "const" and isinstance(v[1], int) and not isinstance(v[1], bool):
+        return {(): v[1]} if v[1] else {}
+    if v[0] == "binop" and v[1] in ("Add", "Sub"):
+        return add(poly(v[2]), poly(v[3]), 1 if v[1] == "Add" else -1)
+    if v[0] == "binop" and v[1] == "Mult":
+        return mul(poly(v[2]), poly(v[3]))
+    if v[0] == "unop" and v[1] == "USub":
+        return add({}, poly(v[2]), -1)
+    return {(v,): 1}
+
+
+def row_slice(m: OdeModel, sl, row):
+    """is `sl` the slice [row*n_eqns : (row+1)*n_eqns] (any arithmetic spelling)?  -> True / False / None (not a plain slice)"""
+    if sl[0] != "slice" or sl[3] != ("const", None):
+        return None
+    lo, hi = poly(sl[1]) if sl[1] != ("const", None) else {}, poly(sl[2])
+    ns = {a for k in list(lo) + list(hi) for a in k if m.is_n_eqns(a)}
+    if len(ns) != 1:
+        return False
+    n = next(iter(ns))
+    want_lo = poly(("binop", "Mult", row, n))
+    return lo == want_lo and hi == poly(("binop", "Add", ("binop", "Mult", row, n), n))
+
+
 def write_read_order(m: OdeModel, role: str):
     """(last write seq, line), (first consumer seq, line, what) for rhs / jacrhs.
     Consumers: the `fex` comprehension (rhs); the CSR builder's reads and the Jacobian(...) construction (jacrhs)."""
